@@ -3,7 +3,7 @@ import ast
 import itertools
 
 from sa.program import src, own_nodes, call_name, parent, kwarg, loc, AnchorMissing
-from sa import guards, poly, affine, effects
+from sa import guards, poly, affine, effects, resolve
 
 EXPLANATION = (
     "Static rules over pyiga/bspline.py and geometry.py: (R07.1) every subscript that is affine in a loop variable over "
@@ -610,8 +610,8 @@ def r07_6(ctx):
         mk = [c for c in ast.walk(fi.node) if isinstance(c, ast.Call) and call_name(c) == 'bspline.make_knots']
         ls = [c for c in ast.walk(fi.node) if isinstance(c, ast.Call) and call_name(c) == 'np.linspace']
         cs = [c for c in ast.walk(fi.node) if isinstance(c, ast.Call) and call_name(c) == 'np.cos' and 'alpha' in src(c)]
-        if not (mk and ls and cs):
-            raise AnchorMissing('R07.6: %s lacks make_knots/linspace/cos(alpha/..)' % name)
+        if not (mk and ls):
+            raise AnchorMissing('R07.6: %s lacks make_knots/linspace' % name)
         spans = src(mk[0].args[3]) if len(mk[0].args) > 3 else None
         mult = kwarg(mk[0], 'mult', 4)
         deg = src(mk[0].args[0])
@@ -622,8 +622,27 @@ def r07_6(ctx):
         npts = src(ls[0].args[2]) if len(ls[0].args) > 2 else None
         ok_ls = src(ls[0].args[0]) == '0' and src(ls[0].args[1]) == 'alpha' and npts == str(k)
         ctx.decide('R07.6', q, src(ls[0]), ok_ls, ls[0], 'control polygon angles 0..alpha in %d points' % k)
-        ctx.formula('R07.6', q, cs[0].args[0], 'alpha / %d' % (k - 1), cs[0],
-                    'inner weight is cos of half the segment angle = alpha/(k-1)', label='weight ' + src(cs[0]))
+        if cs:
+            ctx.formula('R07.6', q, cs[0].args[0], 'alpha / %d' % (k - 1), cs[0],
+                        'inner weight is cos of half the segment angle = alpha/(k-1)', label='weight ' + src(cs[0]))
+        # the corner weights, read through local temporaries, depend on the angle: a weight that does not mention alpha is
+        # the weight of ONE particular angle
+        wl0 = [s_ for s_ in own_nodes(fi.node) if isinstance(s_, ast.Assign) and src(s_.targets[0]) == 'W']
+        if wl0:
+            wv = wl0[0].value
+            if isinstance(wv, ast.Call) and wv.args:
+                wv = wv.args[0]
+            if isinstance(wv, (ast.List, ast.Tuple)) and len(wv.elts) == k:
+                for i in range(1, k, 2):
+                    e = resolve.expand(wv.elts[i], wl0[0])
+                    names = {x.id for x in ast.walk(e) if isinstance(x, ast.Name)}
+                    if 'alpha' not in names:
+                        ctx.violated('R07.6', q, 'corner weight %d: %s' % (i, src(e)), wl0[0],
+                                     'the weight of the corner control points does not depend on the angle alpha: it is cos(alpha/%d) only for one '
+                                     'particular angle; for every other angle the rational segments are not arcs of the circle' % (k - 1))
+                        break
+                else:
+                    ctx.met('R07.6', q, 'corner weights depend on alpha', wl0[0], 'weights are functions of the requested angle')
         nf = [c for c in ast.walk(fi.node) if isinstance(c, ast.Call) and call_name(c) == 'NurbsFunc']
         pm = kwarg(nf[0], 'premultiplied', 3) if nf else None
         ctx.decide('R07.6', q, 'premultiplied=%s' % src(pm), isinstance(pm, ast.Constant) and pm.value is True, nf[0] if nf else fi.node,
